@@ -782,7 +782,10 @@ def fusion(
     while True:
         try:
             instr2, addr2 = next(instr_iter)
-        except (StopIteration, NotImplementedError):
+        except (StopIteration, NotImplementedError, AssertionError):
+            # The look-ahead only exists to glue a PRE byte onto its sister
+            # instruction; bytes *after* instr1 that do not decode (including
+            # operand-validation asserts) must not invalidate instr1 itself.
             yield instr1, addr1
             break
 
